@@ -13,31 +13,135 @@ use crate::custom::Custom;
 use crate::render::*;
 
 // ---------------------------------------------------------------------------------------------
-// helpers
+// accessor steps (PROTOCOL.md §4.1, `again_same`)
 
-/// Prints `P.res` and hands back the parsed value when `ok`.
-fn res_of<T>(out: &mut Out, pfx: &str, r: Option<Result<T, RtcpParseError>>) -> Option<T> {
-    out.kv(pfx, "res", &pres(&r));
-    match r {
-        Some(Ok(t)) => Some(t),
-        _ => None,
+/// One accessor call (or one group of calls that cannot be separated) of a view dump: prints its
+/// keys into the transcript. The flag is `true` in a reversed pass: a step that consists of
+/// several calls / sub-steps makes them last-to-first then.
+type Step<'s> = Box<dyn Fn(&mut Out, bool) + 's>;
+
+/// The accessor calls of a view dump as a list of closures over the parsed object, so that the
+/// same code can be run a second time on the same object, or last-to-first on a fresh one.
+struct Steps<'s> {
+    v: Vec<Step<'s>>,
+}
+
+impl<'s> Steps<'s> {
+    fn new() -> Self {
+        Steps { v: Vec::new() }
+    }
+
+    fn step(&mut self, f: impl Fn(&mut Out, bool) + 's) {
+        self.v.push(Box::new(f));
+    }
+
+    /// A step printing the one key `P.key`; `f` is told whether the pass is a reversed one.
+    fn kv(&mut self, pfx: &'s str, key: impl AsRef<str> + 's, f: impl Fn(bool) -> String + 's) {
+        self.step(move |out, rev| out.kv(pfx, key.as_ref(), &f(rev)));
+    }
+
+    /// First-to-last, or last-to-first when `rev`.
+    fn run(&self, out: &mut Out, rev: bool) {
+        if rev {
+            for s in self.v.iter().rev() {
+                s(out, true);
+            }
+        } else {
+            for s in &self.v {
+                s(out, false);
+            }
+        }
     }
 }
 
-fn header<'a, T: RtcpPacketParser<'a>>(out: &mut Out, pfx: &str, t: &T) {
-    out.kv(pfx, "version", &num(|| t.version()));
-    out.kv(pfx, "type", &num(|| t.type_()));
-    out.kv(pfx, "count", &num(|| t.count()));
-    out.kv(pfx, "subtype", &num(|| t.subtype()));
-    out.kv(pfx, "length", &num(|| t.length()));
+/// Evaluates the closures first-to-last (last-to-first when `rev`); the values come back in the
+/// listed order either way.
+fn parts<const N: usize>(rev: bool, fs: [&dyn Fn() -> String; N]) -> [String; N] {
+    let mut vals: [String; N] = std::array::from_fn(|_| String::new());
+    if rev {
+        for i in (0..N).rev() {
+            vals[i] = fs[i]();
+        }
+    } else {
+        for i in 0..N {
+            vals[i] = fs[i]();
+        }
+    }
+    vals
 }
 
-fn padding_key(out: &mut Out, pfx: &str, f: impl FnOnce() -> Option<u8>) {
-    let v = match guard(f) {
+/// One execution of the accessor code of a view (PROTOCOL.md §4.1, `again_same`).
+pub struct Run<'o> {
+    pub out: &'o mut Out,
+    /// pass C: the steps are run last-to-first
+    pub rev: bool,
+    /// pass B: a further run on an object an earlier run of the same call has used already
+    /// (`packet`: the inner typed view is a `clone()`; `compound`: a `clone()` taken before the
+    /// first run iterated, if there is such a thing)
+    pub second: bool,
+    /// set by `dump_runs`: this run could not be made (pass B of a `compound`, which is not
+    /// `Clone`); `out` is not to be compared then
+    pub skipped: bool,
+}
+
+impl<'o> Run<'o> {
+    pub fn new(out: &'o mut Out, rev: bool, second: bool) -> Self {
+        Run {
+            out,
+            rev,
+            second,
+            skipped: false,
+        }
+    }
+}
+
+/// `maybe_clone!(r)` for `r: &T` with a concrete `T`: `Some(r.clone())` if `T: Clone`, else
+/// `None`; decided at compile time by method resolution (the by-value receiver `&Probe<T>` is
+/// tried before the auto-referenced `&&Probe<T>`), so the harness builds either way.
+struct Probe<'r, T>(&'r T);
+
+trait ProbeClone<T> {
+    fn maybe_clone(&self) -> Option<T>;
+}
+
+impl<'r, T: Clone> ProbeClone<T> for Probe<'r, T> {
+    fn maybe_clone(&self) -> Option<T> {
+        Some(self.0.clone())
+    }
+}
+
+trait ProbeNoClone<T> {
+    fn maybe_clone(&self) -> Option<T>;
+}
+
+impl<'r, T> ProbeNoClone<T> for &Probe<'r, T> {
+    fn maybe_clone(&self) -> Option<T> {
+        None
+    }
+}
+
+macro_rules! maybe_clone {
+    ($r:expr) => {
+        (&Probe($r)).maybe_clone()
+    };
+}
+
+// ---------------------------------------------------------------------------------------------
+// helpers
+
+fn header_steps<'s, 'a: 's, T: RtcpPacketParser<'a>>(st: &mut Steps<'s>, pfx: &'s str, t: &'s T) {
+    st.kv(pfx, "version", move |_| num(|| t.version()));
+    st.kv(pfx, "type", move |_| num(|| t.type_()));
+    st.kv(pfx, "count", move |_| num(|| t.count()));
+    st.kv(pfx, "subtype", move |_| num(|| t.subtype()));
+    st.kv(pfx, "length", move |_| num(|| t.length()));
+}
+
+fn pad_val(f: impl FnOnce() -> Option<u8>) -> String {
+    match guard(f) {
         Some(p) => opt_pad(p),
         None => "panic".to_string(),
-    };
-    out.kv(pfx, "padding", &v);
+    }
 }
 
 fn slice_val<'s>(base: Base, f: impl FnOnce() -> &'s [u8]) -> String {
@@ -45,6 +149,10 @@ fn slice_val<'s>(base: Base, f: impl FnOnce() -> &'s [u8]) -> String {
         Some(s) => slice(base, s),
         None => "panic".to_string(),
     }
+}
+
+fn ok_or_panic(r: Option<()>) -> String {
+    if r.is_some() { "ok" } else { "panic" }.to_string()
 }
 
 enum Drive<T> {
@@ -72,14 +180,17 @@ fn drive_str<T>(r: Option<Drive<T>>, f: impl Fn(&T) -> String) -> String {
     }
 }
 
-/// The `<key>.adapt` value (PROTOCOL.md §5, iterator adaptors):
-/// `count();last();skip(1)..;nth(2);step_by(2)..;next() then nth(1)`, every part on a fresh
-/// iterator from `mk`, the whole under one `catch_unwind`. Collections take at most `cap` calls
-/// of `next()` (`cap` if none of them returned `None`).
+/// The `<key>.adapt` value (PROTOCOL.md §5, iterator adaptors), ten parts joined by `;`:
+/// `count();last();skip(1)..;nth(2);step_by(2)..;next() then nth(1);next() then count();`
+/// `skip(1).count();peekable() peek() for_each..;zip of two`. Every part on a fresh iterator from
+/// `mk` (the last one on two of them, alive at the same time), the whole under one
+/// `catch_unwind`. The capped collections take at most `cap` calls of `next()` (`cap` if none of
+/// them returned `None`). The parts are computed first-to-last, last-to-first when `rev`.
 fn adapt<I: Iterator>(
     mk: impl Fn() -> I,
     cap: usize,
     f: impl Fn(&I::Item) -> String,
+    rev: bool,
 ) -> String {
     let opt = |o: Option<I::Item>| match o {
         Some(e) => f(&e),
@@ -90,15 +201,43 @@ fn adapt<I: Iterator>(
         Drive::Done(v) => list(v.iter().map(&f).collect()),
     };
     guard(|| {
-        let count = mk().count();
-        let last = opt(mk().last());
-        let skip = coll(drive(mk().skip(1), cap));
-        let nth = opt(mk().nth(2));
-        let step = coll(drive(mk().step_by(2), cap));
-        let mut it = mk();
-        let _ = it.next();
-        let after = opt(it.nth(1));
-        format!("{count};{last};{skip};{nth};{step};{after}")
+        parts(
+            rev,
+            [
+                &|| mk().count().to_string(),
+                &|| opt(mk().last()),
+                &|| coll(drive(mk().skip(1), cap)),
+                &|| opt(mk().nth(2)),
+                &|| coll(drive(mk().step_by(2), cap)),
+                &|| {
+                    let mut it = mk();
+                    let _ = it.next();
+                    opt(it.nth(1))
+                },
+                // `count()` of a partly consumed iterator (through `fold`)
+                &|| {
+                    let mut it = mk();
+                    let _ = it.next();
+                    it.count().to_string()
+                },
+                &|| mk().skip(1).count().to_string(),
+                // `peek()` does not consume: all elements
+                &|| {
+                    let mut it = mk().peekable();
+                    let _ = it.peek();
+                    let mut v = Vec::new();
+                    it.for_each(|e| v.push(e));
+                    list(v.iter().map(&f).collect())
+                },
+                // two iterators from the same accessor, alive at the same time
+                &|| {
+                    let a = mk();
+                    let b = mk();
+                    a.zip(b).count().to_string()
+                },
+            ],
+        )
+        .join(";")
     })
     .unwrap_or_else(|| "panic".to_string())
 }
@@ -115,166 +254,205 @@ fn str_val(r: Option<Result<String, std::string::FromUtf8Error>>) -> String {
 // ---------------------------------------------------------------------------------------------
 // report blocks
 
-fn rb_str(rb: &ReportBlock) -> String {
-    [
-        num(|| rb.ssrc()),
-        num(|| rb.fraction_lost()),
-        num(|| rb.cumulative_lost()),
-        num(|| rb.extended_sequence_number()),
-        num(|| rb.interarrival_jitter()),
-        num(|| rb.last_sender_report_timestamp()),
-        num(|| rb.delay_since_last_sender_report_timestamp()),
-    ]
+fn rb_str(rb: &ReportBlock, rev: bool) -> String {
+    parts(
+        rev,
+        [
+            &|| num(|| rb.ssrc()),
+            &|| num(|| rb.fraction_lost()),
+            &|| num(|| rb.cumulative_lost()),
+            &|| num(|| rb.extended_sequence_number()),
+            &|| num(|| rb.interarrival_jitter()),
+            &|| num(|| rb.last_sender_report_timestamp()),
+            &|| num(|| rb.delay_since_last_sender_report_timestamp()),
+        ],
+    )
     .join(",")
 }
 
-fn rbs_keys<'r, I: Iterator<Item = ReportBlock<'r>>>(out: &mut Out, pfx: &str, mk: impl Fn() -> I) {
-    let blocks = guard(|| mk().collect::<Vec<_>>());
-    out.kv(pfx, "rbs.adapt", &adapt(&mk, usize::MAX, rb_str));
-    match blocks {
+/// `rbs`, `rb<i>` and `rbs.adapt` of the rr / sr views.
+fn rbs_steps<'s, 'r, I: Iterator<Item = ReportBlock<'r>>>(
+    st: &mut Steps<'s>,
+    pfx: &'s str,
+    mk: impl Fn() -> I + Copy + 's,
+) {
+    st.step(move |out, rev| match guard(|| mk().collect::<Vec<_>>()) {
         None => out.kv(pfx, "rbs", "panic"),
         Some(v) => {
-            out.kv(pfx, "rbs", &v.len().to_string());
+            let n = v.len();
+            let mut sub = Steps::new();
+            sub.kv(pfx, "rbs", move |_| n.to_string());
             for (i, rb) in v.iter().enumerate() {
-                out.kv(pfx, &format!("rb{i}"), &rb_str(rb));
+                sub.kv(pfx, format!("rb{i}"), move |rev| rb_str(rb, rev));
             }
+            sub.run(out, rev);
         }
-    }
-}
-
-fn dump_rb(out: &mut Out, pfx: &str, bytes: &[u8]) {
-    let Some(rb) = res_of(out, pfx, guard(|| ReportBlock::parse(bytes))) else {
-        return;
-    };
-    out.kv(pfx, "rb", &rb_str(&rb));
+    });
+    st.kv(pfx, "rbs.adapt", move |rev| {
+        adapt(mk, usize::MAX, |rb| rb_str(rb, rev), rev)
+    });
 }
 
 // ---------------------------------------------------------------------------------------------
 // bodies (keys after the header keys)
 
-fn app_body(out: &mut Out, pfx: &str, app: &App, base: Base) {
-    out.kv(pfx, "ssrc", &num(|| app.ssrc()));
-    let name = match guard(|| app.name()) {
+fn app_steps<'s>(st: &mut Steps<'s>, pfx: &'s str, app: &'s App<'s>, base: Base) {
+    st.kv(pfx, "ssrc", move |_| num(|| app.ssrc()));
+    st.kv(pfx, "name", move |_| match guard(|| app.name()) {
         Some(n) => hex(&n),
         None => "panic".to_string(),
-    };
-    out.kv(pfx, "name", &name);
-    out.kv(pfx, "data", &slice_val(base, || app.data()));
-    let strs = guard(|| {
-        let _ = app.get_name_string();
     });
-    out.kv(pfx, "strs", if strs.is_some() { "ok" } else { "panic" });
-    out.kv(pfx, "name_str", &str_val(guard(|| app.get_name_string())));
+    st.kv(pfx, "data", move |_| slice_val(base, || app.data()));
+    st.kv(pfx, "strs", move |_| {
+        ok_or_panic(guard(|| {
+            let _ = app.get_name_string();
+        }))
+    });
+    st.kv(pfx, "name_str", move |_| str_val(guard(|| app.get_name_string())));
 }
 
-fn bye_body(out: &mut Out, pfx: &str, bye: &Bye, base: Base) {
-    let ssrcs = match guard(|| bye.ssrcs().collect::<Vec<u32>>()) {
-        Some(v) => list(v.iter().map(|s| s.to_string()).collect()),
-        None => "panic".to_string(),
-    };
-    out.kv(pfx, "ssrcs", &ssrcs);
-    out.kv(
-        pfx,
-        "ssrcs.adapt",
-        &adapt(|| bye.ssrcs(), usize::MAX, |s| s.to_string()),
-    );
-    let reason = match guard(|| bye.reason()) {
+fn bye_steps<'s>(st: &mut Steps<'s>, pfx: &'s str, bye: &'s Bye<'s>, base: Base) {
+    st.kv(pfx, "ssrcs", move |_| {
+        match guard(|| bye.ssrcs().collect::<Vec<u32>>()) {
+            Some(v) => list(v.iter().map(|s| s.to_string()).collect()),
+            None => "panic".to_string(),
+        }
+    });
+    st.kv(pfx, "ssrcs.adapt", move |rev| {
+        adapt(|| bye.ssrcs(), usize::MAX, |s| s.to_string(), rev)
+    });
+    st.kv(pfx, "reason", move |_| match guard(|| bye.reason()) {
         None => "panic".to_string(),
         Some(None) => "none".to_string(),
         Some(Some(r)) => slice(base, r),
-    };
-    out.kv(pfx, "reason", &reason);
-    let strs = guard(|| {
-        let _ = bye.get_reason_string();
     });
-    out.kv(pfx, "strs", if strs.is_some() { "ok" } else { "panic" });
-    let reason_str = match guard(|| bye.get_reason_string()) {
-        None => "panic".to_string(),
-        Some(None) => "none".to_string(),
-        Some(Some(r)) => str_val(Some(r)),
-    };
-    out.kv(pfx, "reason_str", &reason_str);
+    st.kv(pfx, "strs", move |_| {
+        ok_or_panic(guard(|| {
+            let _ = bye.get_reason_string();
+        }))
+    });
+    st.kv(pfx, "reason_str", move |_| {
+        match guard(|| bye.get_reason_string()) {
+            None => "panic".to_string(),
+            Some(None) => "none".to_string(),
+            Some(Some(r)) => str_val(Some(r)),
+        }
+    });
 }
 
-fn rr_body(out: &mut Out, pfx: &str, rr: &ReceiverReport) {
-    out.kv(pfx, "ssrc", &num(|| rr.ssrc()));
-    out.kv(pfx, "n_reports", &num(|| rr.n_reports()));
-    rbs_keys(out, pfx, || rr.report_blocks());
+fn rr_steps<'s>(st: &mut Steps<'s>, pfx: &'s str, rr: &'s ReceiverReport<'s>) {
+    st.kv(pfx, "ssrc", move |_| num(|| rr.ssrc()));
+    st.kv(pfx, "n_reports", move |_| num(|| rr.n_reports()));
+    rbs_steps(st, pfx, move || rr.report_blocks());
 }
 
-fn sr_body(out: &mut Out, pfx: &str, sr: &SenderReport) {
-    out.kv(pfx, "ssrc", &num(|| sr.ssrc()));
-    out.kv(pfx, "n_reports", &num(|| sr.n_reports()));
-    out.kv(pfx, "ntp", &num(|| sr.ntp_timestamp()));
-    out.kv(pfx, "rtp", &num(|| sr.rtp_timestamp()));
-    out.kv(pfx, "pc", &num(|| sr.packet_count()));
-    out.kv(pfx, "oc", &num(|| sr.octet_count()));
-    rbs_keys(out, pfx, || sr.report_blocks());
+fn sr_steps<'s>(st: &mut Steps<'s>, pfx: &'s str, sr: &'s SenderReport<'s>) {
+    st.kv(pfx, "ssrc", move |_| num(|| sr.ssrc()));
+    st.kv(pfx, "n_reports", move |_| num(|| sr.n_reports()));
+    st.kv(pfx, "ntp", move |_| num(|| sr.ntp_timestamp()));
+    st.kv(pfx, "rtp", move |_| num(|| sr.rtp_timestamp()));
+    st.kv(pfx, "pc", move |_| num(|| sr.packet_count()));
+    st.kv(pfx, "oc", move |_| num(|| sr.octet_count()));
+    rbs_steps(st, pfx, move || sr.report_blocks());
 }
 
-fn item_str(item: &SdesItem, base: Base) -> String {
-    let ty = guard(|| item.type_());
-    let ty_s = match ty {
+/// `<type>,<length()>,<value>,<PRIV>`. The type decides whether the PRIV accessors are called,
+/// so a reversed pass asks for it after `value()` and `length()`, and for `priv_prefix()` before
+/// `priv_prefix_len()`.
+fn item_str(item: &SdesItem, base: Base, rev: bool) -> String {
+    let ty_of = || guard(|| item.type_());
+    let ty_str = |ty: Option<u8>| match ty {
         Some(t) => t.to_string(),
         None => "panic".to_string(),
     };
-    let len = num(|| item.length());
-    let value = slice_val(base, || item.value());
-    let privs = if ty == Some(SdesItem::PRIV) {
-        format!(
-            "{}:{}",
-            num(|| item.priv_prefix_len()),
-            slice_val(base, || item.priv_prefix())
-        )
-    } else {
-        "-".to_string()
+    let privs_of = |ty: Option<u8>| {
+        if ty == Some(SdesItem::PRIV) {
+            let [l, p] = parts(
+                rev,
+                [
+                    &|| num(|| item.priv_prefix_len()),
+                    &|| slice_val(base, || item.priv_prefix()),
+                ],
+            );
+            format!("{l}:{p}")
+        } else {
+            "-".to_string()
+        }
     };
-    format!("{ty_s},{len},{value},{privs}")
+    if rev {
+        let value = slice_val(base, || item.value());
+        let len = num(|| item.length());
+        let ty = ty_of();
+        let privs = privs_of(ty);
+        format!("{},{len},{value},{privs}", ty_str(ty))
+    } else {
+        let ty = ty_of();
+        let len = num(|| item.length());
+        let value = slice_val(base, || item.value());
+        let privs = privs_of(ty);
+        format!("{},{len},{value},{privs}", ty_str(ty))
+    }
 }
 
-fn sdes_body(out: &mut Out, pfx: &str, sdes: &Sdes, base: Base) {
-    out.kv(
-        pfx,
-        "chunks.adapt",
-        &adapt(|| sdes.chunks(), usize::MAX, |c| num(|| c.ssrc())),
-    );
-    match guard(|| sdes.chunks().collect::<Vec<&SdesChunk>>()) {
-        None => out.kv(pfx, "chunks", "panic"),
-        Some(chunks) => {
-            out.kv(pfx, "chunks", &chunks.len().to_string());
-            for (i, chunk) in chunks.iter().enumerate() {
-                out.kv(pfx, &format!("c{i}.ssrc"), &num(|| chunk.ssrc()));
-                out.kv(pfx, &format!("c{i}.length"), &num(|| chunk.length()));
-                out.kv(
-                    pfx,
-                    &format!("c{i}.items.adapt"),
-                    &adapt(|| chunk.items(), usize::MAX, |it| num(|| it.type_())),
-                );
-                match guard(|| chunk.items().collect::<Vec<&SdesItem>>()) {
-                    None => out.kv(pfx, &format!("c{i}.items"), "panic"),
-                    Some(items) => {
-                        out.kv(pfx, &format!("c{i}.items"), &items.len().to_string());
-                        for (j, item) in items.iter().enumerate() {
-                            out.kv(pfx, &format!("c{i}.i{j}"), &item_str(item, base));
-                            out.kv(
-                                pfx,
-                                &format!("c{i}.i{j}.str"),
-                                &str_val(guard(|| item.get_value_string())),
-                            );
-                        }
-                    }
+fn chunk_steps<'s>(
+    st: &mut Steps<'s>,
+    pfx: &'s str,
+    i: usize,
+    chunk: &'s SdesChunk<'s>,
+    base: Base,
+) {
+    st.kv(pfx, format!("c{i}.ssrc"), move |_| num(|| chunk.ssrc()));
+    st.kv(pfx, format!("c{i}.length"), move |_| num(|| chunk.length()));
+    st.kv(pfx, format!("c{i}.items.adapt"), move |rev| {
+        adapt(|| chunk.items(), usize::MAX, |it| num(|| it.type_()), rev)
+    });
+    st.step(move |out, rev| {
+        match guard(|| chunk.items().collect::<Vec<&SdesItem>>()) {
+            None => out.kv(pfx, &format!("c{i}.items"), "panic"),
+            Some(items) => {
+                let n = items.len();
+                let mut sub = Steps::new();
+                sub.kv(pfx, format!("c{i}.items"), move |_| n.to_string());
+                for (j, item) in items.iter().enumerate() {
+                    let item: &SdesItem = item;
+                    sub.kv(pfx, format!("c{i}.i{j}"), move |rev| item_str(item, base, rev));
+                    sub.kv(pfx, format!("c{i}.i{j}.str"), move |_| {
+                        str_val(guard(|| item.get_value_string()))
+                    });
                 }
-            }
-        }
-    }
-    let strs = guard(|| {
-        for chunk in sdes.chunks() {
-            for item in chunk.items() {
-                let _ = item.get_value_string();
+                sub.run(out, rev);
             }
         }
     });
-    out.kv(pfx, "strs", if strs.is_some() { "ok" } else { "panic" });
+}
+
+fn sdes_steps<'s>(st: &mut Steps<'s>, pfx: &'s str, sdes: &'s Sdes<'s>, base: Base) {
+    st.kv(pfx, "chunks.adapt", move |rev| {
+        adapt(|| sdes.chunks(), usize::MAX, |c| num(|| c.ssrc()), rev)
+    });
+    st.step(move |out, rev| {
+        match guard(|| sdes.chunks().collect::<Vec<&SdesChunk>>()) {
+            None => out.kv(pfx, "chunks", "panic"),
+            Some(chunks) => {
+                let n = chunks.len();
+                let mut sub = Steps::new();
+                sub.kv(pfx, "chunks", move |_| n.to_string());
+                for (i, chunk) in chunks.iter().enumerate() {
+                    chunk_steps(&mut sub, pfx, i, chunk, base);
+                }
+                sub.run(out, rev);
+            }
+        }
+    });
+    st.kv(pfx, "strs", move |_| {
+        ok_or_panic(guard(|| {
+            for chunk in sdes.chunks() {
+                for item in chunk.items() {
+                    let _ = item.get_value_string();
+                }
+            }
+        }))
+    });
 }
 
 // ---------------------------------------------------------------------------------------------
@@ -284,12 +462,13 @@ fn nack_entries(n: &Nack, len: usize) -> String {
     drive_str(guard(|| drive(n.entries(), 5 * len + 8)), |e| e.to_string())
 }
 
-fn fir_entry_str(e: &FirEntry) -> String {
-    format!("{}:{}", num(|| e.ssrc()), num(|| e.sequence()))
+fn fir_entry_str(e: &FirEntry, rev: bool) -> String {
+    let [ssrc, seq] = parts(rev, [&|| num(|| e.ssrc()), &|| num(|| e.sequence())]);
+    format!("{ssrc}:{seq}")
 }
 
-fn fir_entries(f: &Fir, len: usize) -> String {
-    drive_str(guard(|| drive(f.entries(), len + 8)), fir_entry_str)
+fn fir_entries(f: &Fir, len: usize, rev: bool) -> String {
+    drive_str(guard(|| drive(f.entries(), len + 8)), |e| fir_entry_str(e, rev))
 }
 
 /// `MacroBlockEntry { start: 1, count: 2, picture_id: 3 }` -> `1:2:3`
@@ -330,62 +509,152 @@ fn adapt_unless_cap(entries: &str, f: impl FnOnce() -> String) -> String {
     }
 }
 
-fn nack_adapt(n: &Nack, len: usize, entries: &str) -> String {
-    adapt_unless_cap(entries, || {
-        adapt(|| n.entries(), 5 * len + 8, |e| e.to_string())
-    })
+/// The entry list of a parsed FCI under `key` (the rendered list after `ok`, which is `ok:`
+/// inside a feedback view and empty in a direct FCI dump) and, if `with_adapt`, its ADAPT under
+/// `key.adapt`. `entries` renders the capped `next()` walk; the adaptors are only called after
+/// such a walk has not run into the cap (in a reversed pass, where `key.adapt` comes first, the
+/// walk is made once more for `key`).
+fn entries_steps<'s>(
+    st: &mut Steps<'s>,
+    pfx: &'s str,
+    key: &'static str,
+    ok: &'static str,
+    with_adapt: bool,
+    entries: impl Fn(bool) -> String + Copy + 's,
+    adapt_of: impl Fn(bool) -> String + 's,
+) {
+    st.kv(pfx, key, move |rev| format!("{ok}{}", entries(rev)));
+    if with_adapt {
+        st.kv(pfx, format!("{key}.adapt"), move |rev| {
+            adapt_unless_cap(&entries(rev), || adapt_of(rev))
+        });
+    }
 }
 
-fn fir_adapt(f: &Fir, len: usize, entries: &str) -> String {
-    adapt_unless_cap(entries, || adapt(|| f.entries(), len + 8, fir_entry_str))
+fn nack_steps<'s>(
+    st: &mut Steps<'s>,
+    pfx: &'s str,
+    key: &'static str,
+    ok: &'static str,
+    n: &'s Nack<'s>,
+    len: usize,
+) {
+    entries_steps(
+        st,
+        pfx,
+        key,
+        ok,
+        true,
+        move |_| nack_entries(n, len),
+        move |rev| adapt(|| n.entries(), 5 * len + 8, |e| e.to_string(), rev),
+    );
 }
 
-fn sli_adapt(s: &Sli, len: usize, entries: &str) -> String {
-    adapt_unless_cap(entries, || {
-        adapt(|| s.lost_macroblocks(), len + 8, sli_entry_str)
-    })
+fn fir_steps<'s>(
+    st: &mut Steps<'s>,
+    pfx: &'s str,
+    key: &'static str,
+    ok: &'static str,
+    with_adapt: bool,
+    f: &'s Fir<'s>,
+    len: usize,
+) {
+    entries_steps(
+        st,
+        pfx,
+        key,
+        ok,
+        with_adapt,
+        move |rev| fir_entries(f, len, rev),
+        move |rev| adapt(|| f.entries(), len + 8, |e| fir_entry_str(e, rev), rev),
+    );
 }
 
-fn rpsi_str(r: &Rpsi, base: Base) -> String {
-    let pt = num(|| r.payload_type());
-    let (bits, n) = match guard(|| r.bit_string()) {
-        Some((s, n)) => (slice(base, s), n.to_string()),
-        None => ("panic".to_string(), "panic".to_string()),
-    };
-    format!("{pt};{bits};{n}")
+fn sli_steps<'s>(
+    st: &mut Steps<'s>,
+    pfx: &'s str,
+    key: &'static str,
+    ok: &'static str,
+    s: &'s Sli<'s>,
+    len: usize,
+) {
+    entries_steps(
+        st,
+        pfx,
+        key,
+        ok,
+        true,
+        move |_| sli_entries(s, len),
+        move |rev| adapt(|| s.lost_macroblocks(), len + 8, sli_entry_str, rev),
+    );
 }
 
-fn dump_fci(out: &mut Out, pfx: &str, kind: Kind, bytes: &[u8], base: Base) {
+fn rpsi_str(r: &Rpsi, base: Base, rev: bool) -> String {
+    let [pt, bits] = parts(
+        rev,
+        [
+            &|| num(|| r.payload_type()),
+            &|| match guard(|| r.bit_string()) {
+                Some((s, n)) => format!("{};{n}", slice(base, s)),
+                None => "panic;panic".to_string(),
+            },
+        ],
+    );
+    format!("{pt};{bits}")
+}
+
+fn dump_fci(pfx: &str, kind: Kind, bytes: &[u8], base: Base, runs: &mut [Run]) {
     let len = bytes.len();
     match kind {
         Kind::Nack => {
-            if let Some(n) = res_of(out, pfx, guard(|| Nack::parse(bytes))) {
-                let e = nack_entries(&n, len);
-                out.kv(pfx, "entries", &e);
-                out.kv(pfx, "entries.adapt", &nack_adapt(&n, len, &e));
+            let r = guard(|| Nack::parse(bytes));
+            for run in runs.iter_mut() {
+                run.out.kv(pfx, "res", &pres(&r));
+                if let Some(Ok(n)) = &r {
+                    let mut st = Steps::new();
+                    nack_steps(&mut st, pfx, "entries", "", n, len);
+                    st.run(run.out, run.rev);
+                }
             }
         }
         Kind::Fir => {
-            if let Some(f) = res_of(out, pfx, guard(|| Fir::parse(bytes))) {
-                let e = fir_entries(&f, len);
-                out.kv(pfx, "entries", &e);
-                out.kv(pfx, "entries.adapt", &fir_adapt(&f, len, &e));
+            let r = guard(|| Fir::parse(bytes));
+            for run in runs.iter_mut() {
+                run.out.kv(pfx, "res", &pres(&r));
+                if let Some(Ok(f)) = &r {
+                    let mut st = Steps::new();
+                    fir_steps(&mut st, pfx, "entries", "", true, f, len);
+                    st.run(run.out, run.rev);
+                }
             }
         }
         Kind::Sli => {
-            if let Some(s) = res_of(out, pfx, guard(|| Sli::parse(bytes))) {
-                let e = sli_entries(&s, len);
-                out.kv(pfx, "entries", &e);
-                out.kv(pfx, "entries.adapt", &sli_adapt(&s, len, &e));
+            let r = guard(|| Sli::parse(bytes));
+            for run in runs.iter_mut() {
+                run.out.kv(pfx, "res", &pres(&r));
+                if let Some(Ok(s)) = &r {
+                    let mut st = Steps::new();
+                    sli_steps(&mut st, pfx, "entries", "", s, len);
+                    st.run(run.out, run.rev);
+                }
             }
         }
         Kind::Rpsi => {
-            if let Some(r) = res_of(out, pfx, guard(|| Rpsi::parse(bytes))) {
-                out.kv(pfx, "rpsi", &rpsi_str(&r, base));
+            let r = guard(|| Rpsi::parse(bytes));
+            for run in runs.iter_mut() {
+                run.out.kv(pfx, "res", &pres(&r));
+                if let Some(Ok(v)) = &r {
+                    let mut st = Steps::new();
+                    st.kv(pfx, "rpsi", move |rev| rpsi_str(v, base, rev));
+                    st.run(run.out, run.rev);
+                }
             }
         }
         Kind::Pli => {
-            let _ = res_of(out, pfx, guard(|| Pli::parse(bytes)));
+            let r = guard(|| Pli::parse(bytes));
+            for run in runs.iter_mut() {
+                run.out.kv(pfx, "res", &pres(&r));
+            }
         }
         _ => unreachable!("not an FCI kind"),
     }
@@ -422,11 +691,12 @@ impl<'a> Feedback<'a> for PayloadFeedback<'a> {
     }
 }
 
-fn fci_outcome<F>(r: &Option<Result<F, RtcpParseError>>, f: impl FnOnce(&F) -> String) -> String {
+/// `panic` / `err:<E>` of a `parse_fci` outcome, `None` when it is `Ok`.
+fn fci_failure<F>(r: &Option<Result<F, RtcpParseError>>) -> Option<String> {
     match r {
-        None => "panic".to_string(),
-        Some(Err(e)) => format!("err:{}", perr(e)),
-        Some(Ok(v)) => f(v),
+        None => Some("panic".to_string()),
+        Some(Err(e)) => Some(format!("err:{}", perr(e))),
+        Some(Ok(_)) => None,
     }
 }
 
@@ -435,162 +705,299 @@ fn in_round_trip(pfx: &str) -> bool {
     pfx == "rt" || pfx.starts_with("rt.")
 }
 
+/// One `parse_fci::<F>()` call as a step: the outcome under `fci.<k>` and, for a parsed list,
+/// its `fci.<k>.adapt` (`$add` pushes them for the parsed value `$v`).
+macro_rules! fci_step {
+    ($st:ident, $pfx:ident, $fb:ident, $F:ty, $key:literal, |$sub:ident, $v:ident| $add:expr) => {
+        $st.step(move |out, rev| {
+            let r = guard(|| $fb.fci::<$F>());
+            let mut $sub = Steps::new();
+            match &r {
+                Some(Ok($v)) => $add,
+                other => {
+                    let failure = fci_failure(other).unwrap_or_default();
+                    $sub.kv($pfx, $key, move |_| failure.clone());
+                }
+            }
+            $sub.run(out, rev);
+        });
+    };
+}
+
 /// `len` is the length of the whole feedback packet: the iterator caps are derived from it.
-fn fb_body<'a, T: Feedback<'a>>(out: &mut Out, pfx: &str, fb: &T, base: Base, len: usize) {
-    out.kv(pfx, "sender_ssrc", &num(|| fb.sender()));
-    out.kv(pfx, "media_ssrc", &num(|| fb.media()));
-    let r = guard(|| fb.fci::<Nack>());
-    out.kv(pfx, "fci.nack", &fci_outcome(&r, |n| format!("ok:{}", nack_entries(n, len))));
-    if let Some(Ok(n)) = &r {
-        let e = nack_entries(n, len);
-        out.kv(pfx, "fci.nack.adapt", &nack_adapt(n, len, &e));
-    }
-    let r = guard(|| fb.fci::<Fir>());
-    out.kv(pfx, "fci.fir", &fci_outcome(&r, |f| format!("ok:{}", fir_entries(f, len))));
-    // not in the round trip of a build request: `FirBuilder` writes its entries in `HashMap`
-    // order, an order-sensitive value cannot be compared there
-    if let (Some(Ok(f)), false) = (&r, in_round_trip(pfx)) {
-        let e = fir_entries(f, len);
-        out.kv(pfx, "fci.fir.adapt", &fir_adapt(f, len, &e));
-    }
-    let r = guard(|| fb.fci::<Sli>());
-    out.kv(pfx, "fci.sli", &fci_outcome(&r, |s| format!("ok:{}", sli_entries(s, len))));
-    if let Some(Ok(s)) = &r {
-        let e = sli_entries(s, len);
-        out.kv(pfx, "fci.sli.adapt", &sli_adapt(s, len, &e));
-    }
-    let r = guard(|| fb.fci::<Rpsi>());
-    out.kv(pfx, "fci.rpsi", &fci_outcome(&r, |r| format!("ok:{}", rpsi_str(r, base))));
-    let r = guard(|| fb.fci::<Pli>());
-    out.kv(pfx, "fci.pli", &fci_outcome(&r, |_| "ok".to_string()));
+fn fb_steps<'s, T: Feedback<'s>>(
+    st: &mut Steps<'s>,
+    pfx: &'s str,
+    fb: &'s T,
+    base: Base,
+    len: usize,
+) {
+    st.kv(pfx, "sender_ssrc", move |_| num(|| fb.sender()));
+    st.kv(pfx, "media_ssrc", move |_| num(|| fb.media()));
+    fci_step!(st, pfx, fb, Nack, "fci.nack", |sub, n| nack_steps(
+        &mut sub, pfx, "fci.nack", "ok:", n, len
+    ));
+    // no `fci.fir.adapt` in the round trip of a build request: `FirBuilder` writes its entries
+    // in `HashMap` order, an order-sensitive value cannot be compared there
+    let fir_adapt = !in_round_trip(pfx);
+    fci_step!(st, pfx, fb, Fir, "fci.fir", |sub, f| fir_steps(
+        &mut sub, pfx, "fci.fir", "ok:", fir_adapt, f, len
+    ));
+    fci_step!(st, pfx, fb, Sli, "fci.sli", |sub, s| sli_steps(
+        &mut sub, pfx, "fci.sli", "ok:", s, len
+    ));
+    fci_step!(st, pfx, fb, Rpsi, "fci.rpsi", |sub, v| sub.kv(
+        pfx,
+        "fci.rpsi",
+        move |rev| format!("ok:{}", rpsi_str(v, base, rev))
+    ));
+    fci_step!(st, pfx, fb, Pli, "fci.pli", |sub, _v| sub.kv(pfx, "fci.pli", |_| "ok"
+        .to_string()));
 }
 
 // ---------------------------------------------------------------------------------------------
 // unknown / packet
 
-fn as_key<'p, T>(out: &mut Out, pfx: &str, k: &str, u: &'p Unknown<'p>)
+/// Prints the pairs first-to-last, last-to-first when `rev`.
+fn emit(out: &mut Out, rev: bool, pfx: &str, kvs: &[(&str, &str)]) {
+    if rev {
+        for (k, v) in kvs.iter().rev() {
+            out.kv(pfx, k, v);
+        }
+    } else {
+        for (k, v) in kvs {
+            out.kv(pfx, k, v);
+        }
+    }
+}
+
+fn as_step<'s, T>(st: &mut Steps<'s>, pfx: &'s str, k: &'static str, u: &'s Unknown<'s>)
 where
     T: RtcpPacket
-        + TryFrom<&'p Unknown<'p>, Error = RtcpParseError>
-        + TryFrom<Unknown<'p>, Error = RtcpParseError>,
+        + TryFrom<&'s Unknown<'s>, Error = RtcpParseError>
+        + TryFrom<Unknown<'s>, Error = RtcpParseError>,
 {
-    let r = guard(|| u.try_as::<T>());
-    out.kv(pfx, &format!("as.{k}"), &pres(&r));
-    // the owned `TryFrom<Unknown>`: `Unknown` is not `Clone`, so a second one is parsed from the
-    // same bytes and consumed
-    let owned = guard(|| {
-        let second: Unknown<'p> = Unknown::parse(u.data())?;
-        <T as TryFrom<Unknown<'p>>>::try_from(second)
+    st.step(move |out, rev| {
+        let [borrowed, owned] = parts(
+            rev,
+            [
+                &|| pres(&guard(|| u.try_as::<T>())),
+                // the owned `TryFrom<Unknown>`: `Unknown` is not `Clone`, so a second one is
+                // parsed from the same bytes and consumed
+                &|| {
+                    pres(&guard(|| {
+                        let second: Unknown<'s> = Unknown::parse(u.data())?;
+                        <T as TryFrom<Unknown<'s>>>::try_from(second)
+                    }))
+                },
+            ],
+        );
+        emit(
+            out,
+            rev,
+            pfx,
+            &[
+                (&format!("as.{k}"), &borrowed),
+                (&format!("aso.{k}"), &owned),
+            ],
+        );
     });
-    out.kv(pfx, &format!("aso.{k}"), &pres(&owned));
 }
 
-fn unknown_body(out: &mut Out, pfx: &str, u: &Unknown, base: Base) {
-    out.kv(pfx, "data", &slice_val(base, || u.data()));
-    as_key::<App>(out, pfx, "app", u);
-    as_key::<Bye>(out, pfx, "bye", u);
-    as_key::<ReceiverReport>(out, pfx, "rr", u);
-    as_key::<Sdes>(out, pfx, "sdes", u);
-    as_key::<SenderReport>(out, pfx, "sr", u);
-    as_key::<TransportFeedback>(out, pfx, "tfb", u);
-    as_key::<PayloadFeedback>(out, pfx, "pfb", u);
+fn unknown_steps<'s>(st: &mut Steps<'s>, pfx: &'s str, u: &'s Unknown<'s>, base: Base) {
+    st.kv(pfx, "data", move |_| slice_val(base, || u.data()));
+    as_step::<App>(st, pfx, "app", u);
+    as_step::<Bye>(st, pfx, "bye", u);
+    as_step::<ReceiverReport>(st, pfx, "rr", u);
+    as_step::<Sdes>(st, pfx, "sdes", u);
+    as_step::<SenderReport>(st, pfx, "sr", u);
+    as_step::<TransportFeedback>(st, pfx, "tfb", u);
+    as_step::<PayloadFeedback>(st, pfx, "pfb", u);
 }
 
-fn conv_keys<'p, T>(out: &mut Out, pfx: &str, k: &str, pkt: &'p Packet<'p>, bytes: &'p [u8])
-where
-    T: RtcpPacketParser<'p>
-        + TryFrom<&'p Packet<'p>, Error = RtcpParseError>
-        + TryFrom<Packet<'p>, Error = RtcpParseError>
+fn conv_step<'s, T>(
+    st: &mut Steps<'s>,
+    pfx: &'s str,
+    k: &'static str,
+    pkt: &'s Packet<'s>,
+    bytes: &'s [u8],
+) where
+    T: RtcpPacketParser<'s>
+        + TryFrom<&'s Packet<'s>, Error = RtcpParseError>
+        + TryFrom<Packet<'s>, Error = RtcpParseError>
         + PartialEq,
 {
-    let typed = guard(|| T::parse(bytes));
-    let conv = guard(|| pkt.try_as::<T>());
-    // the owned `TryFrom<Packet>`: `Packet` is not `Clone`, so a second one is parsed from the
-    // same bytes and consumed
-    let convo = guard(|| {
-        let second: Packet<'p> = Packet::parse(bytes)?;
-        <T as TryFrom<Packet<'p>>>::try_from(second)
+    st.step(move |out, rev| {
+        let typed_of = || guard(|| T::parse(bytes));
+        let conv_of = || guard(|| pkt.try_as::<T>());
+        // the owned `TryFrom<Packet>`: `Packet` is not `Clone`, so a second one is parsed from
+        // the same bytes and consumed
+        let convo_of = || {
+            guard(|| {
+                let second: Packet<'s> = Packet::parse(bytes)?;
+                <T as TryFrom<Packet<'s>>>::try_from(second)
+            })
+        };
+        let (typed, conv, convo);
+        if rev {
+            convo = convo_of();
+            conv = conv_of();
+            typed = typed_of();
+        } else {
+            typed = typed_of();
+            conv = conv_of();
+            convo = convo_of();
+        }
+        let same_as_typed = |r: &Option<Result<T, RtcpParseError>>| match (&typed, r) {
+            (Some(a), Some(b)) => match guard(|| a == b) {
+                Some(s) => s.to_string(),
+                None => "panic".to_string(),
+            },
+            _ => "panic".to_string(),
+        };
+        let [conv_same, convo_same] =
+            parts(rev, [&|| same_as_typed(&conv), &|| same_as_typed(&convo)]);
+        emit(
+            out,
+            rev,
+            pfx,
+            &[
+                (&format!("typed.{k}"), &pres(&typed)),
+                (&format!("conv.{k}"), &pres(&conv)),
+                (&format!("convo.{k}"), &pres(&convo)),
+                (&format!("conv_same.{k}"), &conv_same),
+                (&format!("convo_same.{k}"), &convo_same),
+            ],
+        );
     });
-    out.kv(pfx, &format!("typed.{k}"), &pres(&typed));
-    out.kv(pfx, &format!("conv.{k}"), &pres(&conv));
-    out.kv(pfx, &format!("convo.{k}"), &pres(&convo));
-    let same_as_typed = |r: &Option<Result<T, RtcpParseError>>| match (&typed, r) {
-        (Some(a), Some(b)) => match guard(|| a == b) {
-            Some(s) => s.to_string(),
-            None => "panic".to_string(),
-        },
-        _ => "panic".to_string(),
-    };
-    out.kv(pfx, &format!("conv_same.{k}"), &same_as_typed(&conv));
-    out.kv(pfx, &format!("convo_same.{k}"), &same_as_typed(&convo));
 }
 
 /// `P.typed.<k>` for the seven typed parsers, without a `Packet` to convert (the `packet` view
 /// when `Packet::parse` returned an error).
-fn typed_only_keys(out: &mut Out, pfx: &str, bytes: &[u8]) {
-    out.kv(pfx, "typed.app", &pres(&guard(|| App::parse(bytes))));
-    out.kv(pfx, "typed.bye", &pres(&guard(|| Bye::parse(bytes))));
-    out.kv(pfx, "typed.rr", &pres(&guard(|| ReceiverReport::parse(bytes))));
-    out.kv(pfx, "typed.sdes", &pres(&guard(|| Sdes::parse(bytes))));
-    out.kv(pfx, "typed.sr", &pres(&guard(|| SenderReport::parse(bytes))));
-    out.kv(pfx, "typed.tfb", &pres(&guard(|| TransportFeedback::parse(bytes))));
-    out.kv(pfx, "typed.pfb", &pres(&guard(|| PayloadFeedback::parse(bytes))));
+fn typed_only_steps<'s>(st: &mut Steps<'s>, pfx: &'s str, bytes: &'s [u8]) {
+    st.kv(pfx, "typed.app", move |_| pres(&guard(|| App::parse(bytes))));
+    st.kv(pfx, "typed.bye", move |_| pres(&guard(|| Bye::parse(bytes))));
+    st.kv(pfx, "typed.rr", move |_| pres(&guard(|| ReceiverReport::parse(bytes))));
+    st.kv(pfx, "typed.sdes", move |_| pres(&guard(|| Sdes::parse(bytes))));
+    st.kv(pfx, "typed.sr", move |_| pres(&guard(|| SenderReport::parse(bytes))));
+    st.kv(pfx, "typed.tfb", move |_| pres(&guard(|| TransportFeedback::parse(bytes))));
+    st.kv(pfx, "typed.pfb", move |_| pres(&guard(|| PayloadFeedback::parse(bytes))));
 }
 
-/// The `packet` view after its `res` key. `bytes` are the bytes `pkt` was parsed from.
-fn packet_body(out: &mut Out, pfx: &str, pkt: &Packet, bytes: &[u8], base: Base, conv: bool) {
-    let variant = match pkt {
-        Packet::App(_) => "app",
-        Packet::Bye(_) => "bye",
-        Packet::Rr(_) => "rr",
-        Packet::Sdes(_) => "sdes",
-        Packet::Sr(_) => "sr",
-        Packet::TransportFeedback(_) => "tfb",
-        Packet::PayloadFeedback(_) => "pfb",
-        Packet::Unknown(_) => "unknown",
-    };
-    out.kv(pfx, "variant", variant);
-    out.kv(pfx, "is_unknown", match guard(|| pkt.is_unknown()) { Some(true) => "true", Some(false) => "false", None => "panic" });
-    header(out, pfx, pkt);
-    match pkt {
+/// A `Packet` holding a `clone()` of the typed view inside `p`; `None` for a view that is not
+/// `Clone` (`Unknown`).
+fn clone_inner<'a>(p: &Packet<'a>) -> Option<Packet<'a>> {
+    Some(match p {
+        Packet::App(v) => Packet::App(maybe_clone!(v)?),
+        Packet::Bye(v) => Packet::Bye(maybe_clone!(v)?),
+        Packet::Rr(v) => Packet::Rr(maybe_clone!(v)?),
+        Packet::Sdes(v) => Packet::Sdes(maybe_clone!(v)?),
+        Packet::Sr(v) => Packet::Sr(maybe_clone!(v)?),
+        Packet::TransportFeedback(v) => Packet::TransportFeedback(maybe_clone!(v)?),
+        Packet::PayloadFeedback(v) => Packet::PayloadFeedback(maybe_clone!(v)?),
+        Packet::Unknown(v) => Packet::Unknown(maybe_clone!(v)?),
+    })
+}
+
+/// The `packet` view after its `res` key. `bytes` are the bytes `pkt` was parsed from. The keys
+/// of the inner view (and `padding`) are taken from the typed view inside `inner`: `pkt` itself,
+/// or (pass B) a packet of the same variant holding a clone of it.
+fn packet_steps<'s>(
+    st: &mut Steps<'s>,
+    pfx: &'s str,
+    pkt: &'s Packet<'s>,
+    inner: &'s Packet<'s>,
+    bytes: &'s [u8],
+    base: Base,
+    conv: bool,
+) {
+    st.kv(pfx, "variant", move |_| {
+        match pkt {
+            Packet::App(_) => "app",
+            Packet::Bye(_) => "bye",
+            Packet::Rr(_) => "rr",
+            Packet::Sdes(_) => "sdes",
+            Packet::Sr(_) => "sr",
+            Packet::TransportFeedback(_) => "tfb",
+            Packet::PayloadFeedback(_) => "pfb",
+            Packet::Unknown(_) => "unknown",
+        }
+        .to_string()
+    });
+    st.kv(pfx, "is_unknown", move |_| {
+        match guard(|| pkt.is_unknown()) {
+            Some(true) => "true",
+            Some(false) => "false",
+            None => "panic",
+        }
+        .to_string()
+    });
+    header_steps(st, pfx, pkt);
+    match inner {
         Packet::App(p) => {
-            padding_key(out, pfx, || p.padding());
-            app_body(out, pfx, p, base);
+            st.kv(pfx, "padding", move |_| pad_val(|| p.padding()));
+            app_steps(st, pfx, p, base);
         }
         Packet::Bye(p) => {
-            padding_key(out, pfx, || p.padding());
-            bye_body(out, pfx, p, base);
+            st.kv(pfx, "padding", move |_| pad_val(|| p.padding()));
+            bye_steps(st, pfx, p, base);
         }
         Packet::Rr(p) => {
-            padding_key(out, pfx, || p.padding());
-            rr_body(out, pfx, p);
+            st.kv(pfx, "padding", move |_| pad_val(|| p.padding()));
+            rr_steps(st, pfx, p);
         }
         Packet::Sdes(p) => {
-            padding_key(out, pfx, || p.padding());
-            sdes_body(out, pfx, p, base);
+            st.kv(pfx, "padding", move |_| pad_val(|| p.padding()));
+            sdes_steps(st, pfx, p, base);
         }
         Packet::Sr(p) => {
-            padding_key(out, pfx, || p.padding());
-            sr_body(out, pfx, p);
+            st.kv(pfx, "padding", move |_| pad_val(|| p.padding()));
+            sr_steps(st, pfx, p);
         }
         Packet::TransportFeedback(p) => {
-            padding_key(out, pfx, || p.padding());
-            fb_body(out, pfx, p, base, bytes.len());
+            st.kv(pfx, "padding", move |_| pad_val(|| p.padding()));
+            fb_steps(st, pfx, p, base, bytes.len());
         }
         Packet::PayloadFeedback(p) => {
-            padding_key(out, pfx, || p.padding());
-            fb_body(out, pfx, p, base, bytes.len());
+            st.kv(pfx, "padding", move |_| pad_val(|| p.padding()));
+            fb_steps(st, pfx, p, base, bytes.len());
         }
-        Packet::Unknown(p) => unknown_body(out, pfx, p, base),
+        Packet::Unknown(p) => unknown_steps(st, pfx, p, base),
     }
     if conv {
-        conv_keys::<App>(out, pfx, "app", pkt, bytes);
-        conv_keys::<Bye>(out, pfx, "bye", pkt, bytes);
-        conv_keys::<ReceiverReport>(out, pfx, "rr", pkt, bytes);
-        conv_keys::<Sdes>(out, pfx, "sdes", pkt, bytes);
-        conv_keys::<SenderReport>(out, pfx, "sr", pkt, bytes);
-        conv_keys::<TransportFeedback>(out, pfx, "tfb", pkt, bytes);
-        conv_keys::<PayloadFeedback>(out, pfx, "pfb", pkt, bytes);
+        conv_step::<App>(st, pfx, "app", pkt, bytes);
+        conv_step::<Bye>(st, pfx, "bye", pkt, bytes);
+        conv_step::<ReceiverReport>(st, pfx, "rr", pkt, bytes);
+        conv_step::<Sdes>(st, pfx, "sdes", pkt, bytes);
+        conv_step::<SenderReport>(st, pfx, "sr", pkt, bytes);
+        conv_step::<TransportFeedback>(st, pfx, "tfb", pkt, bytes);
+        conv_step::<PayloadFeedback>(st, pfx, "pfb", pkt, bytes);
+    }
+}
+
+fn packet_runs(pfx: &str, bytes: &[u8], base: Base, runs: &mut [Run]) {
+    let r = guard(|| Packet::parse(bytes));
+    for run in runs.iter_mut() {
+        run.out.kv(pfx, "res", &pres(&r));
+        // pass B: the inner typed view is a clone of the one inside the parsed `Packet`
+        let cloned = match &r {
+            Some(Ok(p)) if run.second => clone_inner(p),
+            _ => None,
+        };
+        let mut st = Steps::new();
+        match &r {
+            // `typed.<k>` for the seven kinds come with the `conv*` keys
+            Some(Ok(p)) => {
+                packet_steps(&mut st, pfx, p, cloned.as_ref().unwrap_or(p), bytes, base, true)
+            }
+            // the typed parsers are asked also when the generic one refused the bytes
+            Some(Err(_)) => typed_only_steps(&mut st, pfx, bytes),
+            None => {}
+        }
+        if r.is_some() {
+            st.kv(pfx, "typed.unknown", move |_| pres(&guard(|| Unknown::parse(bytes))));
+        }
+        st.run(run.out, run.rev);
     }
 }
 
@@ -605,184 +1012,313 @@ fn next_str(c: &mut Compound) -> &'static str {
     }
 }
 
-fn dump_compound(out: &mut Out, pfx: &str, bytes: &[u8], base: Base) {
-    let Some(mut c) = res_of(out, pfx, guard(|| Compound::parse(bytes))) else {
-        return;
-    };
+/// The `compound` view after `res`, on the freshly parsed `c`. Iterating consumes the object:
+/// `c` is driven to its end first, the steps (`adapt`, `n`, the members, `after`) then work on
+/// what it yielded and on the exhausted iterator.
+fn compound_pass(out: &mut Out, pfx: &str, c: Compound, bytes: &[u8], base: Base, rev: bool) {
     let cap = bytes.len() / 4 + 8;
-    let driven = guard(|| drive(&mut c, cap));
-    let adapted = if matches!(driven, Some(Drive::Cap)) {
-        "cap".to_string()
-    } else {
-        adapt(
-            || Compound::parse(bytes).expect("parsed before"),
-            cap,
-            |r| match r {
-                Ok(_) => "ok".to_string(),
-                Err(e) => format!("err:{}", perr(e)),
-            },
-        )
-    };
-    out.kv(pfx, "adapt", &adapted);
-    let items = match driven {
-        None => {
-            out.kv(pfx, "n", "panic");
-            return;
+    let c = std::cell::RefCell::new(c);
+    let driven = guard(|| drive(&mut *c.borrow_mut(), cap));
+    let hit_cap = matches!(driven, Some(Drive::Cap));
+    let mut st = Steps::new();
+    st.kv(pfx, "adapt", move |rev| {
+        if hit_cap {
+            "cap".to_string()
+        } else {
+            adapt(
+                || Compound::parse(bytes).expect("parsed before"),
+                cap,
+                |r| match r {
+                    Ok(_) => "ok".to_string(),
+                    Err(e) => format!("err:{}", perr(e)),
+                },
+                rev,
+            )
         }
-        Some(Drive::Cap) => {
-            out.kv(pfx, "n", "cap");
-            return;
-        }
-        Some(Drive::Done(v)) => v,
-    };
-    out.kv(pfx, "n", &items.len().to_string());
-    // the i-th member occupies `bytes[off..off + 4 * (be16(bytes[off + 2..off + 4]) + 1)]`
-    let mut off = 0usize;
-    for (i, item) in items.iter().enumerate() {
-        let p = join(pfx, &format!("p{i}"));
-        let member = bytes.get(off..).and_then(|rest| {
-            let l = 4 * (u16::from_be_bytes([*rest.get(2)?, *rest.get(3)?]) as usize + 1);
-            rest.get(..l)
-        });
-        match item {
-            Err(e) => out.kv(&p, "res", &format!("err:{}", perr(e))),
-            Ok(pkt) => {
-                out.kv(&p, "res", "ok");
-                packet_body(out, &p, pkt, member.unwrap_or(bytes), base, false);
+    });
+    match &driven {
+        None => st.kv(pfx, "n", |_| "panic".to_string()),
+        Some(Drive::Cap) => st.kv(pfx, "n", |_| "cap".to_string()),
+        Some(Drive::Done(items)) => {
+            let n = items.len();
+            st.kv(pfx, "n", move |_| n.to_string());
+            // the i-th member occupies `bytes[off..off + 4 * (be16(bytes[off + 2..off + 4]) + 1)]`
+            let mut off = 0usize;
+            for (i, item) in items.iter().enumerate() {
+                let p = join(pfx, &format!("p{i}"));
+                let member = bytes.get(off..).and_then(|rest| {
+                    let l = 4 * (u16::from_be_bytes([*rest.get(2)?, *rest.get(3)?]) as usize + 1);
+                    rest.get(..l)
+                });
+                off += member.map_or(0, |m| m.len());
+                st.step(move |out, rev| match item {
+                    Err(e) => out.kv(&p, "res", &format!("err:{}", perr(e))),
+                    Ok(pkt) => {
+                        out.kv(&p, "res", "ok");
+                        let mut sub = Steps::new();
+                        packet_steps(&mut sub, &p, pkt, pkt, member.unwrap_or(bytes), base, false);
+                        sub.run(out, rev);
+                    }
+                });
             }
+            let c = &c;
+            st.kv(pfx, "after", move |_| {
+                let mut c = c.borrow_mut();
+                let a1 = next_str(&mut c);
+                let a2 = next_str(&mut c);
+                let a3 = next_str(&mut c);
+                format!("{a1},{a2},{a3}")
+            });
         }
-        off += member.map_or(0, |m| m.len());
     }
-    let a1 = next_str(&mut c);
-    let a2 = next_str(&mut c);
-    let a3 = next_str(&mut c);
-    out.kv(pfx, "after", &format!("{a1},{a2},{a3}"));
+    st.run(out, rev);
+}
+
+fn compound_runs(pfx: &str, bytes: &[u8], base: Base, runs: &mut [Run]) {
+    let r = guard(|| Compound::parse(bytes));
+    let res = pres(&r);
+    let mut fresh = match r {
+        Some(Ok(c)) => Some(c),
+        _ => None,
+    };
+    let parsed = fresh.is_some();
+    // pass B needs the object pass A consumes: a clone taken before iterating, if `Compound` is
+    // `Clone`
+    let mut spare: Option<Compound> = if runs.iter().any(|r| r.second) {
+        fresh.as_ref().and_then(|c| maybe_clone!(c))
+    } else {
+        None
+    };
+    for run in runs.iter_mut() {
+        run.out.kv(pfx, "res", &res);
+        if !parsed {
+            continue;
+        }
+        let obj = if run.second { spare.take() } else { fresh.take() };
+        match obj {
+            Some(c) => compound_pass(run.out, pfx, c, bytes, base, run.rev),
+            None => run.skipped = true,
+        }
+    }
 }
 
 // ---------------------------------------------------------------------------------------------
 // custom
 
-fn custom_dump<const PT: u8, const MIN: usize>(
-    out: &mut Out,
+fn custom_runs<const PT: u8, const MIN: usize>(
     pfx: &str,
     bytes: &[u8],
     base: Base,
+    runs: &mut [Run],
 ) {
     let direct = guard(|| Custom::<PT, MIN>::parse(bytes));
-    out.kv(pfx, "res", &pres(&direct));
-    if let Some(Ok(c)) = &direct {
-        header(out, pfx, c);
-        padding_key(out, pfx, || c.padding());
-        out.kv(pfx, "body", &slice_val(base, || c.body()));
-    }
-    match guard(|| Packet::parse(bytes)) {
-        None => {
-            out.kv(pfx, "via_packet", "panic");
-            out.kv(pfx, "via_packet_same", "panic");
+    for run in runs.iter_mut() {
+        run.out.kv(pfx, "res", &pres(&direct));
+        let mut st = Steps::new();
+        if let Some(Ok(c)) = &direct {
+            header_steps(&mut st, pfx, c);
+            st.kv(pfx, "padding", move |_| pad_val(|| c.padding()));
+            st.kv(pfx, "body", move |_| slice_val(base, || c.body()));
         }
-        Some(Err(_)) => {
-            out.kv(pfx, "via_packet", "n/a");
-            out.kv(pfx, "via_packet_same", "n/a");
-        }
-        Some(Ok(p)) => {
-            let conv = guard(|| p.try_as::<Custom<PT, MIN>>());
-            out.kv(pfx, "via_packet", &pres(&conv));
-            let same = match (&direct, &conv) {
-                (Some(a), Some(b)) => match guard(|| a == b) {
-                    Some(s) => s.to_string(),
-                    None => "panic".to_string(),
-                },
-                _ => "panic".to_string(),
+        let direct = &direct;
+        st.step(move |out, rev| {
+            let (via, same) = match guard(|| Packet::parse(bytes)) {
+                None => ("panic".to_string(), "panic".to_string()),
+                Some(Err(_)) => ("n/a".to_string(), "n/a".to_string()),
+                Some(Ok(p)) => {
+                    let conv = guard(|| p.try_as::<Custom<PT, MIN>>());
+                    let same = match (direct, &conv) {
+                        (Some(a), Some(b)) => match guard(|| a == b) {
+                            Some(s) => s.to_string(),
+                            None => "panic".to_string(),
+                        },
+                        _ => "panic".to_string(),
+                    };
+                    (pres(&conv), same)
+                }
             };
-            out.kv(pfx, "via_packet_same", &same);
-        }
+            emit(out, rev, pfx, &[("via_packet", &via), ("via_packet_same", &same)]);
+        });
+        st.run(run.out, run.rev);
     }
 }
 
 // ---------------------------------------------------------------------------------------------
-// entry point
+// entry points
 
-/// Prints the view dump of `kind` on `bytes` with prefix `pfx`. `base` describes the byte string
-/// given to the outermost parser (here always `bytes` itself).
-pub fn dump_kind(out: &mut Out, pfx: &str, kind: Kind, bytes: &[u8]) {
+/// `res`, then the header keys, `padding` and the body steps `$body` pushes for the parsed `$p`.
+macro_rules! typed_runs {
+    ($T:ty, $pfx:ident, $bytes:ident, $runs:ident, |$st:ident, $p:ident| $body:expr) => {{
+        let r = guard(|| <$T>::parse($bytes));
+        for run in $runs.iter_mut() {
+            run.out.kv($pfx, "res", &pres(&r));
+            if let Some(Ok($p)) = &r {
+                let mut $st = Steps::new();
+                header_steps(&mut $st, $pfx, $p);
+                $st.kv($pfx, "padding", move |_| pad_val(|| $p.padding()));
+                $body;
+                $st.run(run.out, run.rev);
+            }
+        }
+    }};
+}
+
+/// The view dump of `kind` on `bytes` with prefix `pfx`, once per element of `runs`: the bytes
+/// are parsed ONCE, every run executes the accessor steps on that same object (first-to-last, or
+/// last-to-first for `rev`). `base` describes the byte string given to the outermost parser
+/// (here always `bytes` itself).
+fn dump_runs(pfx: &str, kind: Kind, bytes: &[u8], runs: &mut [Run]) {
     let base = Base::of(bytes);
     match kind {
-        Kind::App => {
-            if let Some(p) = res_of(out, pfx, guard(|| App::parse(bytes))) {
-                header(out, pfx, &p);
-                padding_key(out, pfx, || p.padding());
-                app_body(out, pfx, &p, base);
-            }
-        }
-        Kind::Bye => {
-            if let Some(p) = res_of(out, pfx, guard(|| Bye::parse(bytes))) {
-                header(out, pfx, &p);
-                padding_key(out, pfx, || p.padding());
-                bye_body(out, pfx, &p, base);
-            }
-        }
-        Kind::Rr => {
-            if let Some(p) = res_of(out, pfx, guard(|| ReceiverReport::parse(bytes))) {
-                header(out, pfx, &p);
-                padding_key(out, pfx, || p.padding());
-                rr_body(out, pfx, &p);
-            }
-        }
-        Kind::Sr => {
-            if let Some(p) = res_of(out, pfx, guard(|| SenderReport::parse(bytes))) {
-                header(out, pfx, &p);
-                padding_key(out, pfx, || p.padding());
-                sr_body(out, pfx, &p);
-            }
-        }
-        Kind::Sdes => {
-            if let Some(p) = res_of(out, pfx, guard(|| Sdes::parse(bytes))) {
-                header(out, pfx, &p);
-                padding_key(out, pfx, || p.padding());
-                sdes_body(out, pfx, &p, base);
-            }
-        }
-        Kind::Tfb => {
-            if let Some(p) = res_of(out, pfx, guard(|| TransportFeedback::parse(bytes))) {
-                header(out, pfx, &p);
-                padding_key(out, pfx, || p.padding());
-                fb_body(out, pfx, &p, base, base.len());
-            }
-        }
-        Kind::Pfb => {
-            if let Some(p) = res_of(out, pfx, guard(|| PayloadFeedback::parse(bytes))) {
-                header(out, pfx, &p);
-                padding_key(out, pfx, || p.padding());
-                fb_body(out, pfx, &p, base, base.len());
-            }
-        }
+        Kind::App => typed_runs!(App, pfx, bytes, runs, |st, p| app_steps(&mut st, pfx, p, base)),
+        Kind::Bye => typed_runs!(Bye, pfx, bytes, runs, |st, p| bye_steps(&mut st, pfx, p, base)),
+        Kind::Rr => typed_runs!(ReceiverReport, pfx, bytes, runs, |st, p| rr_steps(
+            &mut st, pfx, p
+        )),
+        Kind::Sr => typed_runs!(SenderReport, pfx, bytes, runs, |st, p| sr_steps(
+            &mut st, pfx, p
+        )),
+        Kind::Sdes => typed_runs!(Sdes, pfx, bytes, runs, |st, p| sdes_steps(
+            &mut st, pfx, p, base
+        )),
+        Kind::Tfb => typed_runs!(TransportFeedback, pfx, bytes, runs, |st, p| fb_steps(
+            &mut st,
+            pfx,
+            p,
+            base,
+            base.len()
+        )),
+        Kind::Pfb => typed_runs!(PayloadFeedback, pfx, bytes, runs, |st, p| fb_steps(
+            &mut st,
+            pfx,
+            p,
+            base,
+            base.len()
+        )),
         Kind::Unknown => {
-            if let Some(p) = res_of(out, pfx, guard(|| Unknown::parse(bytes))) {
-                header(out, pfx, &p);
-                unknown_body(out, pfx, &p, base);
+            let r = guard(|| Unknown::parse(bytes));
+            for run in runs.iter_mut() {
+                run.out.kv(pfx, "res", &pres(&r));
+                if let Some(Ok(p)) = &r {
+                    let mut st = Steps::new();
+                    header_steps(&mut st, pfx, p);
+                    unknown_steps(&mut st, pfx, p, base);
+                    st.run(run.out, run.rev);
+                }
             }
         }
-        Kind::Packet => {
-            let r = guard(|| Packet::parse(bytes));
-            out.kv(pfx, "res", &pres(&r));
-            match &r {
-                // `typed.<k>` for the seven kinds come with the `conv*` keys
-                Some(Ok(p)) => packet_body(out, pfx, p, bytes, base, true),
-                // the typed parsers are asked also when the generic one refused the bytes
-                Some(Err(_)) => typed_only_keys(out, pfx, bytes),
-                None => {}
-            }
-            if r.is_some() {
-                out.kv(pfx, "typed.unknown", &pres(&guard(|| Unknown::parse(bytes))));
+        Kind::Packet => packet_runs(pfx, bytes, base, runs),
+        Kind::Compound => compound_runs(pfx, bytes, base, runs),
+        Kind::Rb => {
+            let r = guard(|| ReportBlock::parse(bytes));
+            for run in runs.iter_mut() {
+                run.out.kv(pfx, "res", &pres(&r));
+                if let Some(Ok(rb)) = &r {
+                    let mut st = Steps::new();
+                    st.kv(pfx, "rb", move |rev| rb_str(rb, rev));
+                    st.run(run.out, run.rev);
+                }
             }
         }
-        Kind::Compound => dump_compound(out, pfx, bytes, base),
-        Kind::Rb => dump_rb(out, pfx, bytes),
         Kind::Nack | Kind::Fir | Kind::Sli | Kind::Rpsi | Kind::Pli => {
-            dump_fci(out, pfx, kind, bytes, base)
+            dump_fci(pfx, kind, bytes, base, runs)
         }
         Kind::Custom(pt, min) => {
-            crate::with_grid!(pt, min, custom_dump, [], (out, pfx, bytes, base))
+            crate::with_grid!(pt, min, custom_runs, [], (pfx, bytes, base, runs))
         }
+    }
+}
+
+/// Prints the view dump of `kind` on `bytes` with prefix `pfx` (every accessor once,
+/// first-to-last).
+pub fn dump_kind(out: &mut Out, pfx: &str, kind: Kind, bytes: &[u8]) {
+    dump_runs(pfx, kind, bytes, &mut [Run::new(out, false, false)]);
+}
+
+/// Inputs longer than this get no `again_same` key.
+pub const AGAIN_MAX_LEN: usize = 70000;
+
+fn key_of(line: &str) -> &str {
+    line.split('=').next().unwrap_or(line)
+}
+
+/// Two dumps as SETS of `key=value` lines: the smallest key (byte-wise string order) among the
+/// lines that are in one of them only, `None` when the sets are equal.
+fn first_set_diff_key<'a>(a: &'a str, b: &'a str) -> Option<&'a str> {
+    use std::collections::BTreeSet;
+    let sa: BTreeSet<&str> = a.lines().collect();
+    let sb: BTreeSet<&str> = b.lines().collect();
+    sa.symmetric_difference(&sb).map(|l| key_of(l)).min()
+}
+
+/// PROTOCOL.md §4.1, `again_same`: prints the view dump like `dump_kind` (pass A) and hands
+/// back the value of the `again_same` key: pass B runs the same accessor steps a second time on
+/// the same parsed object, pass C runs them last-to-first on a freshly parsed one; both compared
+/// with pass A as sets of lines. `None` (no key) for more than `AGAIN_MAX_LEN` bytes.
+pub fn dump_kind_verdict(out: &mut Out, pfx: &str, kind: Kind, bytes: &[u8]) -> Option<String> {
+    if bytes.len() > AGAIN_MAX_LEN {
+        dump_kind(out, pfx, kind, bytes);
+        return None;
+    }
+    let mut a = Out::new();
+    let mut b = Out::new();
+    let mut c = Out::new();
+    let b_skipped = {
+        let mut runs = [Run::new(&mut a, false, false), Run::new(&mut b, false, true)];
+        dump_runs(pfx, kind, bytes, &mut runs);
+        runs[1].skipped
+    };
+    dump_runs(pfx, kind, bytes, &mut [Run::new(&mut c, true, false)]);
+    out.buf.push_str(&a.buf);
+    let mut verdict = "true".to_string();
+    for (name, other, skipped) in [("B", &b, b_skipped), ("C", &c, false)] {
+        if skipped {
+            continue;
+        }
+        if let Some(key) = first_set_diff_key(&a.buf, &other.buf) {
+            verdict = format!("false:{name}:{key}");
+            break;
+        }
+    }
+    Some(verdict)
+}
+
+/// `dump_kind_verdict` followed by the key `P.again_same`.
+pub fn dump_kind_again(out: &mut Out, pfx: &str, kind: Kind, bytes: &[u8]) {
+    if let Some(v) = dump_kind_verdict(out, pfx, kind, bytes) {
+        out.kv(pfx, "again_same", &v);
+    }
+}
+
+#[cfg(test)]
+mod tests {
+    use super::*;
+
+    #[test]
+    fn set_difference_key() {
+        assert_eq!(first_set_diff_key("a=1\nb=2\n", "b=2\na=1\n"), None);
+        assert_eq!(first_set_diff_key("a=1\nb=2\n", "b=3\na=1\n"), Some("b"));
+        assert_eq!(first_set_diff_key("a=1\nc=2\n", "a=1\nb=2\nc=3\n"), Some("b"));
+        assert_eq!(first_set_diff_key("a=1\n", "a=1\nz.y=x=1\n"), Some("z.y"));
+    }
+
+    #[test]
+    fn parts_order() {
+        let log = std::cell::RefCell::new(Vec::new());
+        let v = parts(true, [
+            &|| { log.borrow_mut().push(0); "x".to_string() },
+            &|| { log.borrow_mut().push(1); "y".to_string() },
+        ]);
+        assert_eq!(v, ["x".to_string(), "y".to_string()]);
+        assert_eq!(*log.borrow(), vec![1, 0]);
+    }
+
+    #[test]
+    fn clone_probe() {
+        struct NoClone;
+        let a = 5u32;
+        let b = NoClone;
+        assert_eq!(maybe_clone!(&a), Some(5));
+        assert!(maybe_clone!(&b).is_none());
     }
 }
